@@ -51,4 +51,4 @@ def make_cases(rnd, tier, progs):
 def run(tier, seed, replay):
     if replay:
         return modcheck.replay_cmd(PROP, replay)
-    return modcheck.run(PROP, tier, seed, make_cases)
+    return modcheck.run(PROP, tier, seed, make_cases, failed_call_after=("remove_idle_qubits",))
